@@ -177,7 +177,7 @@ def run_suite(path, new_text):
         with open(os.path.join(s, path), 'w') as fh:
             fh.write(new_text)
         r = subprocess.run(['/venv/bin/python', '-m', 'pytest', '-q', '-p', 'no:cacheprovider', '--timeout=900',
-                            '--continue-on-collection-errors', '--color=no', '-n', '16', '-x', '--maxfail=1'],
+                            '--continue-on-collection-errors', '--color=no', '-n', '16'],
                            cwd=s, env=dict(os.environ, PYTHONPATH=s), capture_output=True, text=True)
         tail = r.stdout.strip().split('\n')[-1]
     finally:
@@ -191,6 +191,7 @@ def main():
     ap.add_argument('--seed', type=int, default=1)
     ap.add_argument('--files', default='*')
     ap.add_argument('--suite', action='store_true')
+    ap.add_argument('--reuse', action='store_true', help='reuse the static results already in --out (same seed/sample)')
     ap.add_argument('--out', default=os.path.join(VERIF, 'sweep', 'results.json'))
     a = ap.parse_args()
     from sa.check import load_prop
@@ -231,9 +232,16 @@ def main():
     print(f'{len(cands)} candidate sites, {len(jobs)} mutants sampled', flush=True)
     t0 = time.time()
     res = {}
-    with ProcessPoolExecutor(max_workers=16) as ex:
-        for mid, hits in ex.map(check_one, jobs, chunksize=2):
-            res[mid] = hits
+    if a.reuse and os.path.exists(a.out):
+        prev = {r['id']: r for r in json.load(open(a.out))['mutants']}
+        if all(mid in prev and prev[mid]['file'] == meta[mid]['file'] and prev[mid]['line'] == meta[mid]['line']
+               and prev[mid]['kind'] == meta[mid]['kind'] for mid in meta):
+            res = {mid: prev[mid]['reported_by'] for mid in meta}
+            print('static results reused', flush=True)
+    if not res:
+        with ProcessPoolExecutor(max_workers=16) as ex:
+            for mid, hits in ex.map(check_one, jobs, chunksize=2):
+                res[mid] = hits
     print(f'static checks: {time.time() - t0:.0f}s', flush=True)
     texts = {j[0]: (j[1], j[2]) for j in jobs}
     out = []
